@@ -330,6 +330,53 @@ class MpHistory(History):
             self.submit(pl)
         self.stat("context_order_%d" % order)
 
+    def chain(self):
+        """payloads whose VBK context exists only inside other in-flight payloads: a gap of VBK blocks nobody
+        submitted yet, then 2-3 VTBs / ATVs mined back to back (each carried block is the parent of the next) with
+        endorsed targets chosen independently of the containing height (so any other sort key orders them
+        differently), submitted in random order; the gap arrives later, then a connect pass"""
+        g, r = self.g, self.r
+        kind = r.choice(["vtb", "vtb", "atv", "mixed"])
+        for _ in range(r.range(1, 2)):
+            g.mine_vbk()
+        items = []
+        for _ in range(r.range(2, 3)):
+            if kind == "vtb" or (kind == "mixed" and r.chance(1, 2)):
+                anc = []
+                c = g.vtip
+                while c is not None and len(anc) < 12:
+                    anc.append(c)
+                    c = g.vbk[c]["parent"]
+                w = g.make_vtb(r.choice(anc), "b0")
+                items.append((w, g.vtb[w]["containing"]))
+                self.my_vtbs.append(w)
+            else:
+                e = self.recent_alt()
+                if e is None:
+                    return
+                t = g.make_atv(e, payout=r.choice(["010203", "aabb", "cc"]))
+                items.append((t, g.atv[t]["bop"]))
+                self.my_atvs.append(t)
+        order = list(items)
+        r.shuffle(order)
+        for x, _ in order:
+            self.submit(x)
+        self.stat("chain_" + kind)
+        if r.chance(1, 5):
+            return                    # the gap never arrives in this step
+        known = g.alt[self.tip()]["kv"]
+        path = g.vpath(known, g.vbk[items[0][1]]["parent"])
+        if r.chance(1, 2):
+            r.shuffle(path)
+        for v in path[:16]:
+            self.submit(v)
+        if r.chance(3, 4):
+            if r.chance(2, 3) or not self.applied:
+                self.gen(r.chance(*self.APPLY))
+            else:
+                ids = [a for a in sorted(g.alt, key=lambda a: int(a[1:])) if g.alt[a]["haspd"] and a != "a0"]
+                self.on("rmall", r.choice(ids[-4:]))
+
     # ---- tree changes
     def grow(self):
         """ALT block(s) through the World: honest bodies, context-heavy bodies (VBK tip far ahead), forks"""
@@ -397,6 +444,8 @@ class MpHistory(History):
             self.submit_context()
         elif name == "grow":
             self.grow()
+        elif name == "chain":
+            self.chain()
         elif name == "gen":
             self.gen(r.chance(*self.APPLY))
         elif name == "rmall":
@@ -421,14 +470,14 @@ class MpHistory(History):
                 r.choice([10, 80, 200, 600, 700, 1200, 2500, 5500000])))
             self.stat("setlim")
 
-    W = [("create", 22), ("submit", 22), ("context", 16), ("grow", 14), ("gen", 10), ("rmall", 4), ("cleanup", 8),
-         ("clear", 2), ("reload", 0), ("limits", 2)]
+    W = [("create", 18), ("submit", 18), ("context", 16), ("chain", 8), ("grow", 14), ("gen", 10), ("rmall", 4),
+         ("cleanup", 8), ("clear", 2), ("reload", 0), ("limits", 2)]
     APPLY = (1, 2)
 
 
 class C12History(MpHistory):
-    W = [("create", 22), ("submit", 18), ("context", 20), ("grow", 8), ("gen", 20), ("rmall", 2), ("cleanup", 3),
-         ("clear", 1), ("reload", 2), ("limits", 4)]
+    W = [("create", 18), ("submit", 18), ("context", 16), ("chain", 8), ("grow", 8), ("gen", 20), ("rmall", 2),
+         ("cleanup", 3), ("clear", 1), ("reload", 2), ("limits", 4)]
     APPLY = (4, 5)
 
 
